@@ -89,7 +89,7 @@ def wrapper_path(d):
     return p
 
 
-def run_observed(workdir, argv, mode="-m", extra_path=(), cwd=None, timeout=300, hashseed="0", stdin=None):
+def run_observed(workdir, argv, mode="-m", extra_path=(), cwd=None, timeout=300, hashseed="0", stdin=None, env_extra=None):
     """Run `python -m <argv[0]> argv[1:]` (or a file) in a child under the audit wrapper.
     workdir: a scratch directory OUTSIDE the observed tree for the wrapper + log.
     Returns dict(rc, out, err, events)."""
@@ -106,6 +106,7 @@ def run_observed(workdir, argv, mode="-m", extra_path=(), cwd=None, timeout=300,
     # third-party caches (black/blib2to3 grammar pickles) go to the unobserved work directory
     env["BLACK_CACHE_DIR"] = os.path.join(workdir, "black-cache")
     env["XDG_CACHE_HOME"] = os.path.join(workdir, "xdg-cache")
+    env.update(env_extra or {})
     try:
         p = subprocess.run([PY, "-W", "ignore", wp, log, mode] + list(argv), stdout=subprocess.PIPE, stderr=subprocess.PIPE,
                            text=True, env=env, cwd=cwd or workdir, timeout=timeout, input=stdin)
